@@ -233,25 +233,38 @@ func c13Summaries(c *mc.Check, maxN int) {
 			}
 		}
 	}
-	for pass := 0; pass < 2; pass++ {
-		for i := range jobs {
-			j := jobs[i]
-			if pass == 1 {
-				j = jobs[len(jobs)-1-i]
+	one := func(j job) {
+		xs := c13Family(j.kind, j.n)
+		var msg string
+		if p := mc.Catch(func() { msg = c13CheckSummary(xs, j.conf) }); p != "" {
+			msg = p
+		}
+		nt := int64(0)
+		if j.n >= 2 {
+			nt = 1
+		}
+		f.Count(1, nt)
+		f.Outcome(fmt.Sprintf("ok=%v", msg == ""), 1)
+		if msg != "" {
+			c.Fail(f, "summary", c13SumCase{xs, j.conf}, msg)
+		}
+	}
+	if c.Sweep() {
+		// free-running -race pass: the jobs on 16 goroutines at once, so that the process-wide interval cache is
+		// filled and read concurrently (the enumerating pass below is sequential so that its order is fixed)
+		mc.ParRange(uint64(len(jobs)), 1, c.TimeUp, func(w int, lo, hi uint64) {
+			for i := lo; i < hi; i++ {
+				one(jobs[i])
 			}
-			xs := c13Family(j.kind, j.n)
-			var msg string
-			if p := mc.Catch(func() { msg = c13CheckSummary(xs, j.conf) }); p != "" {
-				msg = p
-			}
-			nt := int64(0)
-			if j.n >= 2 {
-				nt = 1
-			}
-			f.Count(1, nt)
-			f.Outcome(fmt.Sprintf("ok=%v", msg == ""), 1)
-			if msg != "" {
-				c.Fail(f, "summary", c13SumCase{xs, j.conf}, msg)
+		})
+	} else {
+		for pass := 0; pass < 2; pass++ {
+			for i := range jobs {
+				j := jobs[i]
+				if pass == 1 {
+					j = jobs[len(jobs)-1-i]
+				}
+				one(j)
 			}
 		}
 	}
